@@ -250,3 +250,6 @@ def run(prog: Program, rep: Report, tier: str = "quick") -> None:
     nn = len(roles)
     rep.floor("R10.1", 2 * nn)
     rep.floor("R10.2", 6 * nn)
+    from . import game
+
+    game.add_instances(rep, game.c10_job, [(i, tier) for i in range(nn)], "R10.5", 14 * nn)
